@@ -5,6 +5,11 @@ from props._local import known_witnesses
 def run(ctx):
     corr, violations = run_walks(ctx, {"shrink", "queue", "fixpoint", "entailed"}, {"bc"}, 250, 15000,
                                  ["self_wake_skipped", "duplicate_shared_domain"])
+    # a user-registered constraint woken by instantiation only (harness/ground_watch.py): every GROUND announcement counts
+    import random as _random
+    import ground_watch
+    import nv as _nv
+    violations += ground_watch.run(ctx["report"], _random.Random(ctx["seed"] + 808), (150 * _nv.boost("engine")) if ctx["tier"] == "quick" else 3000, (0,))
     import trig_sweep
     d, v = trig_sweep.sweep(ctx, ctx["report"])
     corr += d
